@@ -322,7 +322,13 @@ def lock_discipline(ctx: Ctx, rule: str) -> None:
     for name, attr in (("synchronized", "lock"), ("synchronized_hashes", "lock_hashes")):
         g = ctx.index.func("utils/locks.py", name)
         withs = [s for s in ast.walk(g) if isinstance(s, ast.With)]
-        ok = len(withs) == 1 and norm_stmt(withs[0].items[0].context_expr) == f"args[0].{attr}" and any(isinstance(r, ast.Return) and isinstance(r.value, ast.Call) and dotted(r.value.func) == "wrapped" for r in ast.walk(withs[0]))
+        # every call of the wrapped method happens inside the block; its result is what the wrapper returns (returned
+        # from inside the block, or kept in a local and returned after it)
+        calls_ = [c_ for c_ in ast.walk(g) if isinstance(c_, ast.Call) and dotted(c_.func) == "wrapped"]
+        ok = len(withs) == 1 and norm_stmt(withs[0].items[0].context_expr) == f"args[0].{attr}" and bool(calls_) and all(any(c_ is x_ for x_ in ast.walk(withs[0])) for c_ in calls_)
+        if ok:
+            held = {t_.id for s_ in ast.walk(g) if isinstance(s_, ast.Assign) and s_.value in calls_ for t_ in s_.targets if isinstance(t_, ast.Name)}
+            ok = any(isinstance(r, ast.Return) and (r.value in calls_ or (isinstance(r.value, ast.Name) and r.value.id in held)) for r in ast.walk(g))
         ctx.ob(rule + "-decorator", cname("utils/locks.py", None, name), ok, f"@{name} must run the wrapped method inside `with args[0].{attr}`", node=g)
 
 
@@ -489,3 +495,49 @@ def accumulated_lists(func: ast.AST) -> list[dict]:
                 cond = any(sv.cfg.kind[t] == "test" and any(sub is sv.cfg.ast[t] for sub in ast.walk(lp)) for t, _ in branch_conditions(sv.cfg, sv.cfg.node_of(c))) if sv.cfg.has(c) else False
                 out.append({"name": c.func.value.id, "iter": lp.iter, "target": lp.target, "elements": els, "node": c, "conditional": cond})
     return out
+
+
+def check_fresh_results(ctx: Ctx, rule: str, prefix: str = "core/mdo_functions/", floor: int = 1) -> None:
+    """A function object never hands out an array it keeps and overwrites at the next evaluation.
+
+    For every class under ``prefix``: an attribute ``self.X`` that some method fills IN PLACE (``self.X[...] = ...``,
+    ``self.X[...] op= ...``) is a reusable buffer; a method returning ``self.X`` itself (directly or through a local
+    alias / a view of it) gives every caller the same array: the value returned -- and recorded in the database --
+    for one point changes when another point is evaluated.  Returning ``self.X.copy()`` / a new array is required.
+    """
+    from gv.dataflow import SymValues
+
+    n = 0
+    for rel, mod in sorted(ctx.index.modules.items()):
+        if not rel.startswith(prefix):
+            continue
+        for cn, c in sorted(mod.classes.items()):
+            buffers: dict[str, ast.AST] = {}
+            for mname, m in c.methods.items():
+                for st in stmts_of(m):
+                    tgts = st.targets if isinstance(st, ast.Assign) else ([st.target] if isinstance(st, ast.AugAssign) else [])
+                    for t in tgts:
+                        if isinstance(t, ast.Subscript) and isinstance(t.value, ast.Attribute) and dotted(t.value.value) == "self":
+                            buffers.setdefault(t.value.attr, st)
+            # ... of arrays: the attribute is created by a numpy constructor somewhere in the class
+            arrays = {st.targets[0].attr for m in c.methods.values() for st in stmts_of(m) if isinstance(st, ast.Assign) and isinstance(st.targets[0], ast.Attribute) and dotted(st.targets[0].value) == "self" and isinstance(st.value, ast.Call) and last_attr(st.value) in ("empty", "zeros", "ones", "full", "empty_like", "zeros_like", "array", "ndarray")}
+            buffers = {k: v for k, v in buffers.items() if k in arrays}
+            if not buffers:
+                continue
+            for mname, m in sorted(c.methods.items()):
+                rets = [r for r in stmts_of(m) if isinstance(r, ast.Return) and r.value is not None]
+                if not rets:
+                    continue
+                sv = None
+                for r in rets:
+                    sv = sv or SymValues(m)
+                    for alt in (sv.exprs(r.value) if sv.cfg.has(r) else [r.value]):
+                        e = alt
+                        while isinstance(e, ast.Attribute) and e.attr in ("T", "real") or (isinstance(e, ast.Subscript)):
+                            e = e.value
+                        if isinstance(e, ast.Attribute) and dotted(e.value) == "self" and e.attr in buffers:
+                            n += 1
+                            ctx.ob(rule, cname(rel, cn, mname), False, f"{mname} returns `{norm_stmt(alt, 50)}`, the array that `{norm_stmt(buffers[e.attr], 60)}` fills in place at every evaluation: all the values handed out are one array, so the Jacobian returned (and recorded in the database when nothing copies it on the way) for one point becomes that of the next point evaluated", node=r, stmt=f"returns the reusable buffer {e.attr.split('__')[-1]}")
+            n += 1
+            ctx.ob(rule, cname(rel, cn), True, "", node=c.node, stmt="in-place filled attributes are not returned")
+    ctx.floor(rule, floor)
